@@ -63,7 +63,7 @@ impl Obs {
             bytes.extend_from_slice(&v.to_le_bytes());
         }
         self.push(name, digest(&bytes));
-        if vs.len() <= 64 {
+        if vs.len() <= 400 {
             self.raw.push(json!([name, vs]));
         }
     }
